@@ -8,6 +8,7 @@
 //! "VIOLATION property=<id> replay=<path>" is printed); 2 harness error.
 
 mod c16;
+mod c18;
 mod core;
 mod rng;
 mod sched;
@@ -116,6 +117,7 @@ fn main() {
             }
             let code = match id.as_str() {
                 "C16" => run_one(&c16::C16, &opt),
+                "C18" => run_one(&c18::C18, &opt),
                 _ => {
                     eprintln!("HARNESS-ERROR unknown or unclaimed property {id}");
                     2
@@ -137,6 +139,7 @@ fn main() {
             }
             let code = match doc["property"].as_str().unwrap_or("") {
                 "C16" => replay_file(&c16::C16, &doc),
+                "C18" => replay_file(&c18::C18, &doc),
                 other => {
                     eprintln!("HARNESS-ERROR unknown property in replay file: {other}");
                     2
